@@ -29,7 +29,7 @@ var extraFieldAnchors = [][3]string{
 	{"", "serverUDPListener", "clientsMutex"},
 	{"", "ServerConn", "session"}, {"", "ServerSession", "state"},
 	{"", "Client", "sender"}, {"", "Client", "baseURL"}, {"", "setupReq", "baseURL"},
-	{"pkg/ringbuffer", "RingBuffer", "mutex"}, {"pkg/ringbuffer", "RingBuffer", "size"}, {"pkg/ringbuffer", "RingBuffer", "buffer"},
+	{"pkg/ringbuffer", "RingBuffer", "mutex"}, {"pkg/ringbuffer", "RingBuffer", "readIndex"}, {"pkg/ringbuffer", "RingBuffer", "writeIndex"}, {"pkg/ringbuffer", "RingBuffer", "closed"}, {"pkg/ringbuffer", "RingBuffer", "cond"}, {"pkg/ringbuffer", "RingBuffer", "size"}, {"pkg/ringbuffer", "RingBuffer", "buffer"},
 }
 
 var extraFuncAnchors = [][2]string{
